@@ -600,6 +600,21 @@ fn uniform_patterns(ctx: &Ctx, label: &str, len: usize, p: &BigUint) -> Vec<(&'s
         let _ = c;
         v.push(("p-in-high-half", put(&x, 32.min(len - 1))));
     }
+    if len == 64 {
+        // both halves at the modulus boundary: (lo + hi·2^256) mod p with lo, hi in {p-1, p, 2^256-1}
+        let halves = [("p-1", p - 1u32), ("p", p.clone()), ("2^256-1", (BigUint::one() << 256usize) - 1u32)];
+        for (_, lo) in &halves {
+            for (_, hi) in &halves {
+                if lo.bits() <= 256 && hi.bits() <= 256 {
+                    let mut b = put(lo, 0);
+                    for (i, y) in hi.to_bytes_le().iter().enumerate() {
+                        b[32 + i] = *y;
+                    }
+                    v.push(("lo|hi-at-modulus", b));
+                }
+            }
+        }
+    }
     let mut lo_ff = vec![0u8; len];
     for b in lo_ff.iter_mut().take(32) {
         *b = 0xff;
